@@ -155,7 +155,7 @@ func PlayMode(beh M, rng *rand.Rand, proj *Projection, mode int) ([]M, error) {
 			if hostile {
 				var after runtime.MemStats
 				runtime.ReadMemStats(&after)
-				x.Log.Append(mem.Ev{"k": "x-alloc", "conn": conn.ID, "bytes": int(after.TotalAlloc - before.TotalAlloc), "sent": len(b), "limit": x.EffLimit()})
+				x.Log.Append(mem.Ev{"k": "x-alloc", "conn": conn.ID, "bytes": capInt(after.TotalAlloc - before.TotalAlloc), "sent": len(b), "limit": x.EffLimit()})
 			}
 		case "eof":
 			conn.CloseClient()
